@@ -89,6 +89,14 @@ def random_case(rng, tier):
         boundary = rng.randint(0, max(boundaries, 1))
         crashes[str(boundary)] = crashes.get(str(boundary), 0) + 1
     media = [rng.choice(persist.MEDIA) for _ in range(4)]
+    lag = {}
+    if rng.random() < 0.3:
+        # the checkpoint goes through one of the bundled persisters, and at some crash points the instance runs on for a few
+        # boundaries after its checkpoint before it is lost: nothing it does then may show in what is restored
+        media = [rng.choice(persist.PERSISTER_MEDIA + persist.MEDIA) for _ in range(4)]
+        for key in crashes:
+            if rng.random() < 0.6:
+                lag[key] = rng.randint(1, 3)
     pauses, crash_paused = [], []
     if rng.random() < 0.3:
         # the process is paused (request made from inside a transition) at some boundaries; at some of those the PAUSED
@@ -107,7 +115,7 @@ def random_case(rng, tier):
         crash_on_played = sorted({rng.randint(1, 3) for _ in range(rng.randint(0, 1))})
     return {'program': program, 'crashes': crashes, 'media': media, 'loader': rng.choice(['default', 'default', 'custom']),
             'pauses': pauses, 'crash_paused': crash_paused, 'pause_in_step': pause_in_step, 'crash_on_paused': crash_on_paused,
-            'crash_on_played': crash_on_played}
+            'crash_on_played': crash_on_played, 'lag': lag}
 
 
 def shrink(case):
@@ -120,6 +128,10 @@ def shrink(case):
             candidate = copy.deepcopy(case)
             del candidate[key][i]
             yield candidate
+    for key in list(case.get('lag') or {}):
+        candidate = copy.deepcopy(case)
+        del candidate['lag'][key]
+        yield candidate
     for key, count in case['crashes'].items():
         if count > 1:
             candidate = copy.deepcopy(case)
@@ -159,7 +171,7 @@ def run(case):
     runner = persist.RestartRun(case['program'], case.get('crashes'), case.get('media'), case.get('loader', 'default'),
                                 pauses=case.get('pauses'), crash_paused=case.get('crash_paused'),
                                 pause_in_step=case.get('pause_in_step'), crash_on_paused=case.get('crash_on_paused'),
-                                crash_on_played=case.get('crash_on_played'))
+                                crash_on_played=case.get('crash_on_played'), lag=case.get('lag'))
     try:
         proc = runner.run()
         if runner.runaway is not None:
@@ -186,6 +198,11 @@ def run(case):
         kind = case['program'].get('kind', 'process')
         result.counters[f'kind:{kind}'] += 1
         result.counters['unsavable_points'] += runner.unsavable
+        for event in runner.world.events:
+            if event[0] == 'crash' and event[2] == 'lagged':
+                result.counters['crash:lagged_behind_checkpoint'] += 1
+            if event[0] in ('crash', 'checkpoint') and str(event[3]).startswith('persister'):
+                result.counters[f'medium:{event[3]}'] += 1
         for state in runner.crash_states:
             result.counters[f'crash:{state if not state.startswith("paused") else "paused"}'] += 1
         if any(v > 1 for v in case['crashes'].values()) and runner.restores >= 2:
